@@ -336,9 +336,27 @@ def malformed_stream(rng, data, n_corrupt, n_random):
         if rng.random() < 0.3:
             b = b[:rng.randint(0, n)]
         out.append(('corrupt', bytes(b)))
+    # whole control words (counters, flags, discriminators) set to boundary values, in either byte order, at aligned offsets
+    for _ in range(max(2, n_corrupt // 2)):
+        if n < 2:
+            break
+        w = rng.choice([2, 4, 4, 8, 8])
+        if n < w:
+            continue
+        i = rng.randrange(0, n - w + 1)
+        i -= i % min(w, 4)
+        val = rng.choice(WORDS) % (1 << (8 * w))
+        word = val.to_bytes(w, rng.choice(['little', 'big']))
+        b = bytearray(data)
+        b[i:i + w] = word
+        out.append(('word', bytes(b)))
     for _ in range(n_random):
         out.append(('random', bytes(rng.randrange(256) for _ in range(rng.randint(0, max(4, n + 4))))))
     return out
+
+
+WORDS = [0, 1, 2, 255, 256, 65535, 65536, 65537, 2 ** 28, 2 ** 28 + 1, 2 ** 31 - 1, 2 ** 31, 2 ** 32 - 1, 2 ** 32, 2 ** 61, 2 ** 61 + 1,
+         2 ** 62, 2 ** 63 - 1, 2 ** 63, 2 ** 64 - 1, 2 ** 64 - 2, 2 ** 60 + 3, 2 ** 32 + 1]
 
 
 def classify_c06(case, detail):
